@@ -13,12 +13,18 @@ Require PPLV.Rows.C16Final.
 Theorem unstored_reads_zero : forall s i, s_mem i (sents s) = false -> s_get i s = 0%Z.
 Proof. exact C16Final.unstored_reads_zero_stmt. Qed.
 
-(* The faithful model (like the code) is NOT representation independent on two mixed operations:
-   findings C16-lax-mixed and C16-trunc-copy. *)
-Theorem lax_mixed_refuted : exists rho h, unsafe rho h = true /\ outputs rho h <> outputs (fun _ => false) h.
-Proof. exact C16Final.lax_mixed_refuted_stmt. Qed.
-Theorem trunc_copy_refuted : exists rho h, unsafe rho h = true /\ outputs rho h <> outputs (fun _ => false) h.
-Proof. exact C16Final.trunc_copy_refuted_stmt. Qed.
+(* linear_combine_lax with a dense operand no longer stores zeroes (finding C16-lax-mixed repaired): the mixed
+   linear_combine_lax(y, 0, c2, ...) is a coefficient-wise operation like every other binary operation *)
+Theorem lax_mixed_refines_abs : forall c2 f l x y, SparseProofs.good x -> SparseProofs.good y ->
+  bop_ok (BLax0 c2 f l) x y = true ->
+  SparseProofs.good (apply_bop (BLax0 c2 f l) x y) /\
+  aeq (abs_e (apply_bop (BLax0 c2 f l) x y)) (a_combine 0 c2 f l (abs_e x) (abs_e y)).
+Proof. exact C16Final.lax_mixed_refines_abs_stmt. Qed.
+(* the sized copy constructor is a resize of the abstract row for every pair of representations
+   (finding C16-trunc-copy repaired) *)
+Theorem copy_sized_refines_abs : forall sp n e, SparseProofs.good e ->
+  SparseProofs.good (copy_sized sp n e) /\ aeq (abs_e (copy_sized sp n e)) (a_resize n (abs_e e)).
+Proof. exact C16Final.copy_sized_refines_abs_stmt. Qed.
 
 (* ---- rows: every mutator commutes with the abstraction to (size, nat -> Z), every observer is a
    function of the abstraction (a_uop / a_bop / a_obs1 / a_obs2 map an operation to its a_* counterpart) ---- *)
@@ -30,9 +36,9 @@ Theorem sparse_refines_abs : forall u s, s_wf s -> s_nz s -> uop_ok u (ES s) = t
    s_nz (match apply_uop u (ES s) with ES t => t | ED _ => s end)) /\
   aeq (abs_e (apply_uop u (ES s))) (ExprProofs.a_uop u (abs_e (ES s))).
 Proof. exact C16Final.sparse_refines_abs_stmt. Qed.
-(* binary operations, all four combinations of representations (the two unsafe ones excluded) *)
+(* binary operations, all four combinations of representations, no exception *)
 Theorem mixed_binary_refines_abs : forall b x y, SparseProofs.good x -> SparseProofs.good y ->
-  bop_ok b x y = true -> bop_unsafe b x y = false ->
+  bop_ok b x y = true ->
   SparseProofs.good (apply_bop b x y) /\ aeq (abs_e (apply_bop b x y)) (ExprProofs.a_bop b (abs_e x) (abs_e y)).
 Proof. exact C16Final.mixed_binary_refines_abs_stmt. Qed.
 Theorem observers_refine_abs : forall o e, SparseProofs.good e -> apply_obs1 o e = SparseProofs.a_obs1 o (abs_e e).
@@ -42,9 +48,8 @@ Theorem observers2_refine_abs : forall o x y, SparseProofs.good x -> SparseProof
 Proof. exact C16Final.observers2_refine_abs_stmt. Qed.
 
 (* for every history and any two assignments of representations to the registers (mixed operands
-   included) all observations are equal, provided neither run uses one of the two refuted combinations *)
-Theorem dense_sparse_interchangeable :
-  forall rho1 rho2 h, unsafe rho1 h = false -> unsafe rho2 h = false -> outputs rho1 h = outputs rho2 h.
+   included) all observations are equal -- unconditionally *)
+Theorem dense_sparse_interchangeable : forall rho1 rho2 h, outputs rho1 h = outputs rho2 h.
 Proof. exact C16Final.dense_sparse_interchangeable_stmt. Qed.
 
 (* ---- the tree: searches, for ANY valid hint (stale or far away), find the map-level answer ---- *)
